@@ -104,11 +104,13 @@ def support_tag(case):
 
 
 # ---------------------------------------------------------------- TLC
-def run_families(ctx, fams=None, tier=None, workers=6):
-    """Run Families.tla for the tier (optionally restricted to some families) and return (result, cases)."""
+def run_families(ctx, fams=None, tier=None, workers=6, part=""):
+    """Run Families.tla for the tier (optionally restricted to some families) and return (result, cases).
+    part: "" = the configuration lattice (Families.<tier>.cfg); "reassign" = the behavioural part ReInit / ReNext
+    (Families.reassign.<tier>.cfg: one object, parameters assigned one after another)."""
     import os, re
     from . import tlc as _tlc
-    tier = tier or ctx.tier
+    tier = (part + "." if part else "") + (tier or ctx.tier)
     txt = open(os.path.join(_tlc.SPECS, "cfg", "Families.%s.cfg" % tier)).read()
     if fams is not None:
         txt = re.sub(r'Fams = \{.*\}', 'Fams = {%s}' % ", ".join('"%s"' % f for f in fams), txt)
@@ -140,6 +142,20 @@ def run_deviation(ctx):
         from . import tlc as _tlc
         _tlc.cleanup(res)
         raise MachineryError("deviation SqrtcovDocConvention did not violate SameDistribution (got %r): vacuous invariant"
+                             % res.violated)
+    return res
+
+
+def run_reassign_deviation(ctx):
+    """Named deviation StaleCacheAfterAssign (an assignment keeps what was derived from the old parameters) must violate
+    ReassignIsFresh (non-vacuity of the invariant of the Reassign part)."""
+    from .core import MachineryError
+    res = ctx.tlc("Families", cfg="Families.reassign_stale.deviation.cfg", workers=2, timeout=900, extra_modules=["DiffOps.tla"],
+                  expect_violation=True)
+    if res.violated != "ReassignIsFresh":
+        from . import tlc as _tlc
+        _tlc.cleanup(res)
+        raise MachineryError("deviation StaleCacheAfterAssign did not violate ReassignIsFresh (got %r): vacuous invariant"
                              % res.violated)
     return res
 
